@@ -1305,6 +1305,14 @@ pub fn engine_of(prop: &str) -> &'static str {
 pub fn gen_any(prop: &str, seed: u64) -> Value {
     match engine_of(prop) {
         "seq" => {
+            let sparse = |cfg: &mut RunCfg| {
+                if matches!(prop, "C01" | "C09" | "C04" | "C11") && cfg.fault.is_none() {
+                    let mut r = Rng::new(crate::rng::mix(seed, 0x5BA2));
+                    if r.pct(25) {
+                        cfg.extra.insert("snap_every".into(), r.pick(&["2", "3", "5", "1000"]).to_string());
+                    }
+                }
+            };
             // a generated stack must be buildable by construction: initial contents of one leaf
             // never put an entry below a file or the same path twice with different types. If a
             // generator slips, the configuration is re-drawn (deterministically), never run.
@@ -1315,6 +1323,7 @@ pub fn gen_any(prop: &str, seed: u64) -> Value {
                 cfg = gen_cfg(prop, crate::rng::mix(seed, 0x5EED_0000 + attempt));
                 cfg.seed = seed;
             }
+            sparse(&mut cfg);
             serde_json::to_value(cfg).unwrap()
         }
         "conc" => serde_json::to_value(gen_conc(prop, seed)).unwrap(),
